@@ -136,9 +136,11 @@ func (p *Parser) Parse(buf []byte, args ...any) (any, error) {
 	p.lastKey = emptyKey
 	p.lastStrKey = emptyKey
 	var err error
-	// Skip BOM if present.
-	if 3 < len(buf) && buf[0] == 0xEF {
-		if buf[1] == 0xBB && buf[2] == 0xBF {
+	// Skip BOM if present. A first byte of 0xEF that is not followed by 0xBB
+	// starts a token, a character in the range U+F000 to U+FFFF, as it does
+	// when read from a io.Reader.
+	if 3 < len(buf) && buf[0] == 0xEF && buf[1] == 0xBB {
+		if buf[2] == 0xBF {
 			err = p.parseBuffer(buf[3:], true)
 		} else {
 			return nil, fmt.Errorf("expected BOM at 1:3")
